@@ -9,6 +9,7 @@ checks = {
  "C05": ("Encode on Files built through the public API with symbolic field values, output parsed by an independent grammar walker in the harness (header, definitions, records, sizes, CRCs, wire values) and the File's bookkeeping compared with the bytes written", "§5/C05"),
  "C06": ("the bytes Encode wrote (symbolic terms) are fed to the real Decode on the same path and the decoded File compared field by field with the original", "§5/C06"),
  "C07": ("messages produced by the real record parser from arbitrary accepted single-field definitions and data are stored in a File, encoded, integrity-checked, decoded, encoded and decoded again on one symbolic path; encodability, counts and the fixpoint are solver-decided", "§5/C07"),
+ "C08": ("every entry point executed symbolically on model streams with write provenance (stores into objects that pre-exist the call); Decode from an arbitrary state of the package-level accumulators versus the fresh state; Encode twice under symbolic map iteration orders", "§5/C08"),
  "C10": ("streams generated from a FIT stream model with arbitrary field bytes, read through a chunking reader that records every request; Decode/CheckIntegrity/DecodeHeader/DecodeHeaderAndFileID/DecodeChained run on the same symbolic stream and compared", "§5/C10"),
  "C11": ("the model streams cut or faulted at every offset (case-split by the solver), all entry points; chain boundary with cut, fault and stray byte", "§5/C11"),
  "C12": ("step lemma over all 2^32 reference timestamps x 32 offsets x 256 header bytes, conversions over all 2^32 field values, short sequences through the real record parser", "§5/C12"),
@@ -21,8 +22,6 @@ checks = {
  "C20": ("every generated type's real String method with the receiver symbolic over its full width against the constant table read from go/types", "§5/C20"),
 }
 na = {
- "C08": "not yet claimed in this commit: shared-write frame harness under construction",
- "C09": "not yet claimed in this commit: reduced non-interference claim depends on C08's frame",
  "C19": "fitgen: the property quantifies over workbook files and product-profile selections pushed through xlsx parsing, text generation, go/format, file I/O and a go build; none of it is a bounded integer computation the SSA encoder can reach, and there is no symbolic input short of a whole spreadsheet",
 }
 import sys
@@ -43,6 +42,7 @@ m = {
  "not_applicable": [{"property_id": k, "reason": v} for k, v in sorted(na.items()) if k not in checks],
  "notes": "Exit codes: 0 held within the stated bounds (KNOWN-FINDING lines allowed), 1 replay-confirmed violation, 2 inconclusive (unknown/timeout/unwinding/unsupported/vacuous/encoding mismatch) — never reported as success. Known findings: known_findings.json. Mutation self-test: ./bin/gosym selftest.",
 }
+checks["C09"] = ("reduced claim, see level text", "§5/C09")
 for pid, (text, ref) in sorted(checks.items()):
     m["checks"].append({
      "property_id": pid,
@@ -51,7 +51,7 @@ for pid, (text, ref) in sorted(checks.items()):
      "evidence_file": "evidence/%s.json" % pid,
      "replay_cmd_template": "./check %s --replay {path}" % pid,
      "engine": "gosym",
-     "level_claimed": {"category": "model_checking", "text": "bounded symbolic model checking of the real code: " + text + ". The deciding step is the solver's verdict over all values within the bounds printed in the evidence file; outside them nothing is claimed.", "design_ref": "DESIGN.md " + ref},
+     "level_claimed": {"category": "other", "text": "Reduced claim (no interleavings are explored): the non-interference premise 'no entry point writes an object that exists before the call' is decided by symbolic execution with write provenance over all stream contents of the harness's stream model; race freedom and equality with sequential use follow from it by a disjoint-state argument that is stated, not machine-checked. Each explored path is additionally replayed natively with the two calls in separate goroutines under the Go race detector.", "design_ref": "DESIGN.md §5/C09"} if pid == "C09" else {"category": "model_checking", "text": "bounded symbolic model checking of the real code: " + text + ". The deciding step is the solver's verdict over all values within the bounds printed in the evidence file; outside them nothing is claimed.", "design_ref": "DESIGN.md " + ref},
      "level_note": "trusted: go/ssa lowering, z3 5.1.0, the reflect / binary.Write / fmt models of DESIGN.md §3; every sat answer is replayed natively before it is reported, every sampled path's model is replayed natively as translator validation",
      "technique": "SMT-based symbolic execution of go/ssa (bit-vector/FP encoding regenerated from /repo each run), solver verdict per path and assertion",
     })
